@@ -59,6 +59,7 @@ def getterOkB (s : Shape) (d : Data) (m : Marker) (g : Getter) : Bool :=
          | some vs => ext.recRead r vs (b - a)
          | none => false)
     | .varLen => decide (a ≤ d.len)
+    | .varLenSlice => decide (a ≤ b) && decide (b ≤ d.len)
     | .rangeOnly => true
 
 def handle (cmd : String) (args : List String) : Option String :=
